@@ -218,8 +218,14 @@ class ExternalVariableCollector(NodeVisitor):
         else:
             if node.lineno in self.comments:
                 self.vardoc[node.id] = self.comments[node.lineno]
-            self.provenance[node.id] = "body"
+            # A parameter, closure variable or declared global that is
+            # assigned in the body keeps its provenance
+            self.provenance.setdefault(node.id, "body")
             self.assigned.add(node.id)
+
+    def visit_Global(self, node):
+        for name in node.names:
+            self.provenance[name] = "external"
 
     def visit_ExceptHandler(self, node):
         if node.name is not None:
